@@ -295,9 +295,72 @@ fn window_rows(env: &mut Env, lo: i64, hi: i64, datetime: bool, b_tods: &'static
     });
 }
 
+/// Exact anniversaries over one whole 400-year cycle: for every start month of the cycle beginning
+/// in `base_year` (start days 1, 15 and 28) and every count n in 1..=4812, a = b + n months must
+/// give n (and n / 12 years), and the day (or nanosecond) before it n - 1. Distances of centuries
+/// are where an answer derived from the day distance (mean months, mean years) drifts away from the
+/// calendar; no window of a few years contains them.
+fn anniversaries(env: &mut Env, base_year: i64) {
+    const DOMS: [u32; 3] = [1, 15, 28];
+    env.run_fast::<Pair>(4800 * 3, move |c, fs| {
+        let mi = (c / 3) as i64;
+        let dom = DOMS[(c % 3) as usize];
+        let astro = cal::astro_from_display(base_year) + mi.div_euclid(12);
+        let (y, m) = (cal::display_from_astro(astro), (mi.rem_euclid(12) + 1) as u32);
+        let bday = cal::days_from_ymd(y, m, dom);
+        let datetime = dom == 15;
+        let ns = if datetime { 43_200_000_000_000 + (mi % 1000) * 1_000_000 + 1 } else { 0 };
+        let b = Inst { day: bday, ns };
+        let mut out = Vec::new();
+        if bday <= cal::MIN_DAY + 1 {
+            return out;
+        }
+        let bd = mk_date(bday);
+        let bt = mk_dt(b.i());
+        for n in 1..=4812i64 {
+            let t = cal::add_months((y, m, dom), n);
+            let aday = cal::days_from_ymd(t.0, t.1, t.2);
+            if aday >= cal::MAX_DAY - 1 {
+                break;
+            }
+            fs.evaluations += 2;
+            fs.nontrivial += 2;
+            let ok = catch(|| {
+                if datetime {
+                    let a = mk_dt(Inst { day: aday, ns }.i());
+                    let a1 = mk_dt(Inst { day: aday, ns }.i() - 1);
+                    (a.months_since(&bt) as i64, a1.months_since(&bt) as i64, a.years_since(&bt) as i64, a1.years_since(&bt) as i64, bt.months_since(&a) as i64)
+                } else {
+                    let a = mk_date(aday);
+                    let a1 = mk_date(aday - 1);
+                    (a.months_since(&bd) as i64, a1.months_since(&bd) as i64, a.years_since(&bd) as i64, a1.years_since(&bd) as i64, bd.months_since(&a) as i64)
+                }
+            })
+            .map(|v| v == (n, n - 1, n / 12, (n - 1) / 12, -n))
+            .unwrap_or(false);
+            if !ok {
+                out.push(PairCase { a: Inst { day: aday, ns }, b, datetime, oa: 0, ob: 0 });
+                let before = if datetime { Inst { day: aday, ns: ns - 1 } } else { Inst { day: aday - 1, ns: 0 } };
+                out.push(PairCase { a: before, b, datetime, oa: 0, ob: 0 });
+                break;
+            }
+        }
+        out
+    });
+}
+
 pub fn run(env: &mut Env) {
     let t = env.thorough();
     let d = |y, m, dd| cal::days_from_ymd(y, m, dd);
+    anniversaries(env, 1600);
+    anniversaries(env, -250);
+    if t {
+        anniversaries(env, 2000);
+        anniversaries(env, -5_879_000);
+        anniversaries(env, 5_878_000);
+        anniversaries(env, -100_300);
+    }
+    env.exhaustive_parts.push("C07: every start month (days 1, 15, 28; the 15th as DateTime) of the 400-year cycles beginning in 1600 and -250 (thorough: also 2000, -5879000, 5878000, -100300) x every count of 1..=4812 months: the exact anniversary and the day / nanosecond before it".into());
     if t {
         window_rows(env, d(2019, 1, 1), d(2025, 1, 1), false, &TODS[..1]);
         window_rows(env, d(-3, 1, 1), d(4, 12, 31), false, &TODS[..1]);
